@@ -1,6 +1,6 @@
 From Coq Require Import ZArith List Bool Reals Lra.
 From Flocq Require Import Core BinarySingleNaN.
-Require Import GV.FloatBase GV.FloatLemmas GV.AngleM GV.AngleProofs GV.GeonumM GV.GeonumProofs GV.TraitsM GV.NewProofs GV.CtorProofs GV.PiBounds GV.TrigProofs GV.DotValue GV.DistValue GV.DirProofs GV.SymProofs.
+Require Import GV.FloatBase GV.FloatLemmas GV.AngleM GV.AngleProofs GV.GeonumM GV.GeonumProofs GV.TraitsM GV.NewProofs GV.CtorProofs GV.PiBounds GV.TrigProofs GV.DotValue GV.DistValue GV.DirProofs GV.SymProofs GV.ClosureProofs GV.SwapProofs.
 Open Scope R_scope.
 Require Import GV.Properties.C15.
 Check C15_cos_encoding : forall (L : libm) a, fin (cosF L (grade_angle a)) ->
@@ -32,3 +32,11 @@ Check C15_pythagoras : forall (L : libm) (u : R) a, cos_acc L u -> sin_acc L u -
   let c := cosF L (grade_angle a) in let s := sinF L (grade_angle a) in
   Rabs (R_ c * R_ c + R_ s * R_ s - 1) <= 5 * (u + 25 / 10000000000000000).
 Print Assumptions C15_pythagoras.
+Check C15_adj_value : forall (L : libm) (u : R) g, cos_acc L u -> u <= / 1000 -> canonp (rem (ang g)) -> fin (mag (adj L g)) ->
+  Rabs (R_ (mag (adj L g)) - Rabs (R_ (mag g)) * Rabs (cos (dir (ang g))))
+    <= Rabs (R_ (mag g)) * (u + 3 / 1000000000000000) + bpow radix2 (-1075).
+Print Assumptions C15_adj_value.
+Check C15_opp_value : forall (L : libm) (u : R) g, sin_acc L u -> u <= / 1000 -> canonp (rem (ang g)) -> fin (mag (opp L g)) ->
+  Rabs (R_ (mag (opp L g)) - Rabs (R_ (mag g)) * Rabs (sin (dir (ang g))))
+    <= Rabs (R_ (mag g)) * (u + 3 / 1000000000000000) + bpow radix2 (-1075).
+Print Assumptions C15_opp_value.
